@@ -9,6 +9,9 @@ CHECKS = {
  "C09": dict(level="exploration", technique="bounded-exhaustive input enumeration (all bundle shapes x payload 0..N x every MTU) against a reference predicate",
    text="Every (bundle shape, payload length, MTU) triple of a finite structured alphabet is executed against the real Fragment/ReassembleFragments and judged by a reference predicate transcribed from the statement; all reassembly orders for <=4 fragments. Exhaustive within the stated bounds, which is the right level for a pure function over a small integer domain.",
    note="Trusted: reference CBOR tokenizer, bitwise CRCs and validity predicate (mc/ref); vinstr import rewrite is semantics-preserving in pass-through mode.", design="3/C09"),
+ "C10": dict(level="exploration", technique="bounded-exhaustive enumeration of all subsets and orders of fragment pools against a coverage oracle derived from payload content",
+   text="For each bundle shape and payload size a pool of fragments is built from three real fragmentations with different limits plus second-level fragmentation of fragments; every non-empty subset (optionally with a duplicate) in all orders (<=4 elements) or asc/desc/rotated orders is reassembled by the real ReassembleFragments / IsBundleReassemblable / storage.Store and compared with coverage computed from the fragments' payload content. Exhaustive over subsets within the pool bound.",
+   note="Trusted: injective payload byte pattern locates each fragment's true position independently of its header; reference encoder/decoder; store reused across cases with distinct bundle IDs.", design="3/C10"),
 }
 NA_REASON = "check not built yet in this round (planned in DESIGN.md section 3)"
 
